@@ -12,7 +12,7 @@
    exactly once on every path; that part is explored by the correspondence run against the daemon's
    /proc/<pid>/fd (tools/props/c15.py). *)
 From Coq Require Import Permutation.
-From DV Require Import Lib.Base Fds.Fds Spec.FdsSpec Proofs.FdsBase Proofs.FdsStep Proofs.FdsHist Proofs.FdsMain Proofs.FdsFuel.
+From DV Require Import Lib.Base Fds.Fds Spec.FdsSpec Proofs.FdsBase Proofs.FdsStep Proofs.FdsHist Proofs.FdsMain Proofs.FdsFuel Fds.Write Proofs.FdsWrite.
 Local Open Scope N_scope.
 
 (* The property as stated, over the model: for every history,
@@ -94,6 +94,26 @@ Theorem C15_full : C15_full_statement.
 Proof. exact full_statement_holds. Qed.
 Print Assumptions C15_full.
 
+(* the transport write step (do_writing): however the recipient's socket splits a message into writes (caps: bytes taken at
+   each attempt, 0 = EAGAIN), the descriptors on the wire are exactly the message's descriptors if the transport passes
+   descriptors and at least one byte went out, none otherwise: they accompany the first piece and no other *)
+Theorem C15_write_split : forall can_fd hlen blen F caps,
+  let '(calls, w) := do_writing can_fd hlen blen F 0 caps in
+  wire_fds calls = (if can_fd && (0 <? w) then F else []) /\ w = wire_bytes calls /\ w <= hlen + blen.
+Proof. exact write_split. Qed.
+Print Assumptions C15_write_split.
+
+(* every delivery of every history, written to its recipient in k >= 1 pieces of any sizes: the recipient's descriptor
+   count for the message equals the announced count, and they are the message's descriptors in order *)
+Theorem C15_delivery_on_the_wire : forall cf h, 0 < fd_timeout cf ->
+  let st := reach cf h in
+  forall r s d F y hlen blen caps calls,
+    In (r, (s, (d, F))) (g_deliv (st_led st)) -> In y (all_conns st) -> c_id y = r ->
+    0 < hlen + blen -> do_writing (c_neg y) hlen blen F 0 caps = (calls, hlen + blen) ->
+    wire_fds calls = F /\ nlen (wire_fds calls) = w_nfds d.
+Proof. exact delivery_on_the_wire. Qed.
+Print Assumptions C15_delivery_on_the_wire.
+
 (* the loops of the model are never cut short: serving a write never ends with "out of fuel" or with unread bytes, so the
    fault flag of a state can only come from an ill-formed event (all theorems above hold for those histories too) *)
 Theorem C15_fuel_suffices : forall cf now cs c ps fds led,
@@ -128,6 +148,12 @@ Example C15_ex_truncated :
   g_kdrop (st_led (reach cf0 h_trunc)) = [64] /\
   held (reach cf0 h_trunc) = [] /\ live_ids (reach cf0 h_trunc) = [1] /\ st_fault (reach cf0 h_trunc) = false.
 Proof. vm_compute. repeat split. Qed.
+
+(* a 300000-byte header taken by the socket in three pieces, then the body: one call carries the two descriptors *)
+Example C15_ex_split :
+  map wr_fds (fst (do_writing true 300000 8 [7; 9] 0 [212992; 0; 50000; 37008; 8])) = [[7; 9]; []; []; []] /\
+  snd (do_writing true 300000 8 [7; 9] 0 [212992; 0; 50000; 37008; 8]) = 300008.
+Proof. vm_compute. split; reflexivity. Qed.
 
 Example C15_ex_nodup : NoDup (sent_fds h_trunc).
 Proof. vm_compute. repeat constructor; simpl; intuition discriminate. Qed.
